@@ -508,6 +508,55 @@ pub fn run_scenario(sc: &Scenario, cont_depth: usize, errnos: &[i32], ctx: &Ctx)
     (calls.len(), n_images, n_faults, found, trace)
 }
 
+
+/// worker: a rotation fails (non-empty directory at the archive name) while the process's standard output is
+/// not writable (/dev/full, then a pipe nobody reads).  The failing append must still *return* its error.
+/// Results go to stderr as JSON lines (stdout is the broken stream).
+pub fn child_stdout() -> i32 {
+    use log4rs::append::rolling_file::{
+        policy::compound::{roll::fixed_window::FixedWindowRoller, trigger::size::SizeTrigger, CompoundPolicy},
+        RollingFileAppender,
+    };
+    use std::os::unix::io::AsRawFd;
+    let mut n = 0u64;
+    for mode in ["dev-full", "broken-pipe"] {
+        for ext in ["", ".gz"] {
+            n += 1;
+            let sb = Sandbox::new();
+            std::fs::create_dir_all(sb.path(&format!("arch/app.0.log{}", ext)).join("occupied")).unwrap();
+            let roller = FixedWindowRoller::builder().build(&format!("{}/arch/app.{{}}.log{}", sb.dir.display(), ext), 1).unwrap();
+            let app = RollingFileAppender::builder()
+                .encoder(Box::new(log4rs::encode::pattern::PatternEncoder::new("{m}")))
+                .build(sb.path("app.log"), Box::new(CompoundPolicy::new(Box::new(SizeTrigger::new(5)), Box::new(roller))))
+                .unwrap();
+            // break fd 1
+            unsafe {
+                if mode == "dev-full" {
+                    let f = std::fs::OpenOptions::new().write(true).open("/dev/full").unwrap();
+                    libc::dup2(f.as_raw_fd(), 1);
+                } else {
+                    let mut fds = [0i32; 2];
+                    libc::pipe(fds.as_mut_ptr());
+                    libc::close(fds[0]);
+                    libc::dup2(fds[1], 1);
+                    libc::close(fds[1]);
+                }
+            }
+            let r = catch_panic(|| app.append(&Record::builder().level(log::Level::Info).args(format_args!("0123456789")).build()));
+            let active = std::fs::read(sb.path("app.log")).unwrap_or_default();
+            let line = match r {
+                Err(ref p) => json!({"kind": "violation", "sig": format!("stdout-unwritable:panic:{}", panic_site(p)), "detail": format!("standard output {} and a failing rotation (archive {}): append panicked instead of returning the error: {}", mode, if ext.is_empty() { "plain" } else { "gzip" }, p), "case": {"stdout": mode, "ext": ext}}),
+                Ok(Ok(())) => json!({"kind": "violation", "sig": "stdout-unwritable:no-error-reported", "detail": format!("standard output {}: the failing rotation was not reported", mode), "case": {"stdout": mode, "ext": ext}}),
+                Ok(Err(_)) if active != b"0123456789" => json!({"kind": "violation", "sig": "stdout-unwritable:acknowledged-data-lost", "detail": format!("active file holds {:?}", String::from_utf8_lossy(&active)), "case": {"stdout": mode, "ext": ext}}),
+                Ok(Err(_)) => json!({"kind": "ok"}),
+            };
+            eprintln!("{}", line);
+        }
+    }
+    eprintln!("{}", json!({"kind": "stat", "runs": n}));
+    0
+}
+
 pub fn scenario_json(sc: &Scenario) -> Value {
     json!({"world": world_json(&sc.world), "history": sc.history, "target": sc.target, "arm_before": sc.arm_before})
 }
@@ -630,6 +679,25 @@ pub fn run(ctx: &Ctx) -> Report {
     }
     for t in traces.into_iter().take(5) {
         rep.sample(t);
+    }
+    // the failing append must return its error also when the process cannot write to its standard output
+    {
+        let o = crate::engine::proc::run_child(&ctx.exe, "c08stdout", &[], &[], std::time::Duration::from_secs(60));
+        let lines: Vec<Value> = String::from_utf8_lossy(&o.stderr).lines().filter_map(|l| serde_json::from_str::<Value>(l).ok()).collect();
+        let mut done = false;
+        for v in &lines {
+            if v["kind"] == "violation" {
+                rep.violation(v["sig"].as_str().unwrap_or("?"), v["detail"].as_str().unwrap_or(""), json!({"kind": "stdout", "case": v["case"].clone()}));
+            }
+            if v["kind"] == "stat" {
+                done = true;
+                rep.add("evaluations", v["runs"].as_u64().unwrap_or(0));
+                rep.set("unwritable_stdout_runs", v["runs"].as_u64().unwrap_or(0));
+            }
+        }
+        if !done {
+            rep.violation("stdout-unwritable:abort", format!("the worker died (status {:?}): {}", o.status, String::from_utf8_lossy(&o.stderr).lines().last().unwrap_or("")), json!({"kind": "stdout"}));
+        }
     }
     rep.set("scenarios", scs.len() as u64);
     rep.set("continuation_depth", depth as u64);
